@@ -85,6 +85,11 @@ def faultReply (b : Backend) (kind : String) (nice : Reply) (g : Nat) : Reply :=
   | "httpstatus" => { status200 := false }
   | "malformed" => { parses := false }
   | "jobfail" => { flags := [.wellFormed] }
+  | "jobfail_success" => { flags := [.wellFormed] }        -- job result FAIL whose details mention OK / success
+  | "savefail" => { out := .text, flags := [.hash] }       -- multi-line save failure with fragments of a good answer, no [OK]
+  | "savefail_ok" => { out := .text, flags := [.okMark, .hash] } -- an error sentence that happens to contain "[OK]"
+  | "errsuccess" => { parses := false }                    -- status="error" whose message contains "success"
+  | "commitmsg" => { flags := [.wellFormed] }              -- status="success" with a failure message instead of a job
   | _ => nice
 
 def showLike (l : String) : Bool :=
